@@ -43,12 +43,12 @@ def registry_key(ctx: Ctx, cls: ClassInfo) -> Optional[List[Tuple[str, int, str]
 
 
 def run(ctx: Ctx, rep: Report) -> None:
-    rep.rule("C06-R1", "registered SNMP types carry the RFC class / tag / nature / signedness; registry keys do not collide", floor=12)
-    rep.rule("C06-R2", "the modules that register the SNMP types are imported unconditionally from the package root", floor=2)
-    rep.rule("C06-R3", "decoders read fields in the order and at the index / mask their encoders and the RFCs use", floor=10)
+    rep.rule("C06-R1", "registered SNMP types carry the RFC class / tag / nature / signedness; registry keys do not collide", floor=11)
+    rep.rule("C06-R2", "the modules that register the SNMP types are imported unconditionally from the package root", floor=1)
+    rep.rule("C06-R3", "decoders read fields in the order and at the index / mask their encoders and the RFCs use", floor=5)
     rep.rule("C06-R4", "unsigned application types decode unsigned", floor=4)
-    rep.rule("C06-R6", "encrypted responses: the decrypted octets are parsed unmodified and replace only the ciphertext (shared with C11-R2)", floor=3)
-    rep.rule("C06-R5", "operations hand every response value (exception markers included) to the caller: complete, unfiltered, in order (get / getnext / set: shared with C04-R3/R5)", floor=8)
+    rep.rule("C06-R6", "encrypted responses: the decrypted octets are parsed unmodified and replace only the ciphertext (shared with C11-R2)", floor=2)
+    rep.rule("C06-R5", "operations hand every response value (exception markers included) to the caller: complete, unfiltered, in order (get / getnext / set: shared with C04-R3/R5)", floor=6)
     rep.assumptions += [
         "x690.decode / Integer / OctetString / ObjectIdentifier / Null implement BER for all values and definite length forms (numeric; analysed only structurally, see C20 for the TLV walker)",
     ]
@@ -236,28 +236,25 @@ def run(ctx: Ctx, rep: Report) -> None:
     okd = any(isinstance(n, ast.Return) and isinstance(n.value, ast.Call) and norm(n.value.func).endswith("from_snmp_type") for n in own_nodes(ud.node)) and any(isinstance(n, ast.Call) and ctx.r.call_resolves_to(ud, n, "x690.types:decode") and any(kw.arg == "enforce_type" and norm(kw.value) == "Sequence" for kw in n.keywords) for n in own_nodes(ud.node))
     rep.check(okd, "C06-R3", ud.site(), "USMSecurityParameters.decode parses a SEQUENCE and maps it through from_snmp_type", key=f"{ud.key}|decode-flow")
     fd = flags.methods["decode"]
-    fdefs = ctx.defs(fd)
-    fctor = [n for n in own_nodes(fd.node) if isinstance(n, ast.Call) and ctx.r.resolve_class(fd.module, n.func) == flags]
-    if len(fctor) == 1:
-        b = bind_call_args(fctor[0], dataclass_fields(flags), skip_self=False)
-        masks = {}
-        for fld, arg in b.items():
-            exp = fdefs.expand(arg, stop=["flags"])
-            for n in ast.walk(exp):
-                if isinstance(n, ast.BinOp) and isinstance(n.op, ast.BitAnd):
-                    try:
-                        masks[fld] = ctx.r.const(fd.module, n.right)
-                    except NotConstant:
-                        try:
-                            masks[fld] = ctx.r.const(fd.module, n.left)
-                        except NotConstant:
-                            masks[fld] = None
-        want = {"auth": rfc.MSGFLAG_AUTH, "priv": rfc.MSGFLAG_PRIV, "reportable": rfc.MSGFLAG_REPORTABLE}
-        rep.check(masks == want, "C06-R3", fd.site(), "V3Flags.decode: auth <- bit 0x01, priv <- bit 0x02, reportable <- bit 0x04 (same bits as the encoder)", f"{masks}", key=f"{fd.key}|masks")
-        src_ok = any(isinstance(n, ast.Call) and norm(n.func) == "int.from_bytes" for n in own_nodes(fd.node))
-        rep.check(src_ok, "C06-R3", fd.site(), "the flag bits are read from the integer value of the msgFlags octet", key=f"{fd.key}|source")
-    else:
-        rep.undecided("C06-R3", fd.site(), "one V3Flags construction", f"{len(fctor)}")
+    # the decoder is evaluated for every value of the low three bits plus reserved bits set (engine/minieval.py)
+    from ..engine.minieval import Instance, MiniEval, Raised, Unevaluable
+
+    octet_cls = ctx.u.cls("x690.types:OctetString")
+    for octet in (0, 1, 2, 3, 4, 5, 6, 7, 0xF8 | 5, 0x80):
+        blob = Instance(octet_cls, [], {})
+        blob.attrs.update(value=bytes([octet]), pyvalue=bytes([octet]))
+        want = {"auth": bool(octet & rfc.MSGFLAG_AUTH), "priv": bool(octet & rfc.MSGFLAG_PRIV), "reportable": bool(octet & rfc.MSGFLAG_REPORTABLE)}
+        text = f"V3Flags.decode({octet:#04x}): auth <- bit 0x01, priv <- bit 0x02, reportable <- bit 0x04 (same bits as the encoder)"
+        try:
+            got = MiniEval(ctx).call_function(fd, [blob])
+        except Unevaluable as exc:
+            rep.undecided("C06-R3", fd.site(), text, f"not evaluable: {exc}")
+            continue
+        except Raised as exc:
+            rep.violated("C06-R3", fd.site(), text, f"raises {exc.value!r}", key=f"{fd.key}|masks")
+            continue
+        vals = {k: got.attrs.get(k) for k in want} if isinstance(got, Instance) and got.cls.key == flags.key else None
+        rep.check(vals is not None and {k: bool(v) for k, v in vals.items()} == want, "C06-R3", fd.site(), text, f"{got!r}", key=f"{fd.key}|masks")
     md = msg.methods["decode"]
     from ..engine.patterns import simulate
 
